@@ -121,7 +121,7 @@ TB_TEMPLATE = TB_COMMON + [
     "text layer JL.std.GoJson (json.Decoder Token machine, string escaping) plugged under the template model; the transcripts of json.Marshal(string) and of the reader's traversal observed on the real code are compared with it on every case",
     "oracle: json.Marshal of float64/float32 (transcript per case); dynamic types outside the model are not generated in this stream",
 ]
-TEMPLATE_RULE = "template stream: (input template, output template) pairs of 0-4 columns over 9 formats x 19 raw types (+none), sub-rows to depth 2, same column names on both sides in 60% of the cases (as jl builds them), one side empty or unrelated otherwise; per pair 3-6 input lines (declared keys in any order, missing and extra keys, numbers of every spelling and magnitude, look-alike strings: numeric, boolean, base64, dates, RFC 3339; nulls, arrays, objects; 3/14 of the lines not one object) read by Importer.ReadOne and written by Exporter.Export with a recording writer, plus 2 CreateRow inputs (slice, map, Row, JSON text as string / []byte, other); row state after import, emitted bytes and error classes compared with the model; plus the typed round-trip oracle over the 86 typed pairings of the lossless table; a case is distinct by (templates, probes)"
+TEMPLATE_RULE = "template stream: (input template, output template) pairs of 0-4 columns over 9 formats x 19 raw types (+none), sub-rows to depth 2, same column names on both sides in 60% of the cases (as jl builds them), one side empty or unrelated otherwise; per pair 3-6 input lines (declared keys in any order, missing and extra keys, numbers of every spelling and magnitude, look-alike strings: numeric, boolean, base64, dates, RFC 3339; nulls, arrays, objects; 3/14 of the lines not one object) read by Importer.ReadOne and written by Exporter.Export with a recording writer, plus 2 CreateRow inputs (slice, map, Row, JSON text as string / []byte, other); row state after import, emitted bytes and error classes compared with the model; plus the typed round-trip oracle over the 86 typed pairings of the lossless table; plus the directed single-column sweep (every output descriptor: 9 formats x 20 raw types, x five input templates x ~110 values incl. numbers beyond float64, fractional / exponent / 1e14 timestamps, one-digit / slash / dot dates, year-boundary instants, control characters, trailing line breaks, arrays and objects out of alphabetical order) through the C01 / C03 / C04 / C05 oracles; columns built through the generic builder and through the dedicated WithX / WithMappedX methods; a case is distinct by (templates, probes)"
 PROPS.update({
     "C03": {"streams": [{"name": "template"}], "rule": TEMPLATE_RULE, "trusted_base": TB_TEMPLATE,
             "assumptions": ["order oracle judged for one column list shared by both templates (as jl builds them) or no input template"]},
